@@ -61,8 +61,10 @@ theorem toIter_relax {v : Val} {xs : List Data} (h : toIter v = .ok xs) : toIter
   | data d => exact h
   | undef k =>
     simp only [toIter] at h
-    rcases poke_ok_or_err k .iter with h1 | ⟨e, h1⟩ <;> rw [h1] at h
-    · simpa [toIter] using h
+    rcases poke_ok_or_err k .cls with h0 | ⟨e, h0⟩ <;> rw [h0] at h
+    · rcases poke_ok_or_err k .iter with h1 | ⟨e, h1⟩ <;> rw [h1] at h
+      · simpa [toIter] using h
+      · cases h
     · cases h
 
 theorem getItem_relax {v : Val} {s : Seg} {o : Option Val} (h : getItem v s = .ok o) :
@@ -512,8 +514,10 @@ theorem fSplit_relax {v a r : Val} (h : fSplit v a = .ok r) : fSplit (relax v) (
     | data d => simp only [relax_data] at h ⊢; cases h; rfl
     | undef k =>
       simp only at h
-      rcases poke_ok_or_err k .attr with h1 | ⟨e, h1⟩ <;> rw [h1] at h
-      · cases h; rfl
+      rcases poke_ok_or_err k .cls with h0 | ⟨e, h0⟩ <;> rw [h0] at h
+      · rcases poke_ok_or_err k .attr with h1 | ⟨e, h1⟩ <;> rw [h1] at h
+        · cases h; rfl
+        · cases h
       · cases h
 
 /-- the eight concrete filters only refine -/
